@@ -23,6 +23,10 @@ pub struct Case {
     /// annotate variable definitions in the rendering
     #[serde(default)]
     pub annotate_defs: bool,
+    /// parameters and return types are written without annotations (operator requirements on a parameter are then
+    /// deferred constraints, re-checked when a call instantiates the function)
+    #[serde(default)]
+    pub erase_params: bool,
     /// the perturbed program (the perturbed expression is wrapped in `Mark`)
     pub prog: Program,
     pub kinds: Vec<String>,
@@ -30,9 +34,10 @@ pub struct Case {
     pub source: String,
 }
 
-fn surface(annotate_defs: bool) -> SurfacePlan {
+fn surface(annotate_defs: bool, erase_params: bool) -> SurfacePlan {
     let mut p = SurfacePlan::default();
-    p.annot_default = (annotate_defs, true, true);
+    p.annot_default = (annotate_defs, !erase_params, !erase_params);
+    p.annotate_outer_fns = true;
     p
 }
 
@@ -366,15 +371,19 @@ impl Check for C02 {
             return None;
         }
         let annotate_defs = t.bool();
-        let source = render(&prog, &surface(annotate_defs)).text;
-        Some(Case { annotate_defs, prog, kinds, source })
+        let erase_params = t.chance(1, 3);
+        let source = render(&prog, &surface(annotate_defs, erase_params)).text;
+        Some(Case { annotate_defs, erase_params, prog, kinds, source })
     }
 
     fn evaluate(&self, case: &Case, labels: &mut Labels) -> Verdict {
         for k in &case.kinds {
             labels.add(format!("kind:{}", k));
         }
-        let printed = render(&case.prog, &surface(case.annotate_defs));
+        let printed = render(&case.prog, &surface(case.annotate_defs, case.erase_params));
+        if case.erase_params {
+            labels.add("unannotated-parameters");
+        }
         if case.annotate_defs {
             labels.add("annotated-definitions");
         }
@@ -507,8 +516,8 @@ impl Check for C02 {
                 if !has_mark {
                     return Step::Skip;
                 }
-                let source = render(&p.prog, &surface(case.annotate_defs)).text;
-                Step::Candidate(Case { annotate_defs: case.annotate_defs, prog: p.prog, kinds: case.kinds.clone(), source })
+                let source = render(&p.prog, &surface(case.annotate_defs, case.erase_params)).text;
+                Step::Candidate(Case { annotate_defs: case.annotate_defs, erase_params: case.erase_params, prog: p.prog, kinds: case.kinds.clone(), source })
             }
         }
     }
